@@ -193,14 +193,17 @@ func c15Vanilla[P curves.Point[P, F, S], F algebra.FiniteFieldElement[F], S alge
 		if parity && negNonce(sig.R) {
 			c.Violation(fmt.Sprintf("schnorr %s: nonce parity rule not honoured, R=%s", cfg, pointStr(sig.R)))
 		}
+		var sigE S // the challenge carried inside the signature structure (must not be trusted by Verify)
+		sigE = sig.E
 		try := func(tag string, Pk, R P, s S, m []byte, expect string) {
 			e, ok := chal(R, Pk, m)
 			if !ok {
 				return
 			}
+			E := sigE
 			out := safely(func() string {
 				p := &schnorrlike.PublicKey[P, S]{PublicKeyTrait: signatures.PublicKeyTrait[P, S]{V: Pk}}
-				return c15Verdict(verifier.Verify(&schnorrlike.Signature[P, S]{E: sig.E, R: R, S: s}, p, m))
+				return c15Verdict(verifier.Verify(&schnorrlike.Signature[P, S]{E: E, R: R, S: s}, p, m))
 			})
 			lhs := fmt.Sprintf("schnorr.verify %s %s %s %s %s %s %s %s", cname, negs, pointStr(Pk), pointStr(R), scalarHex(s), e, hexBytes(m), tag)
 			c.Emit(lhs, out)
@@ -230,6 +233,60 @@ func c15Vanilla[P curves.Point[P, F, S], F algebra.FiniteFieldElement[F], S alge
 				try(fmt.Sprintf("alt-pk%d", i), p2, sig.R, sig.S, msg, "reject")
 			}
 		}
+
+		// ---- adversarially constructed signatures (no call to Signer.Sign)
+		toScalar := func(hexS string) (S, bool) {
+			b, ok := new(big.Int).SetString(hexS, 16)
+			if !ok {
+				var z S
+				return z, false
+			}
+			return scalarFromBig(sf, b), true
+		}
+		nonZero := func() S {
+			return scalarFromBig(sf, new(big.Int).Add(r.BigBelow(new(big.Int).Sub(n, big.NewInt(1))), big.NewInt(1)))
+		}
+		// (a) the harness signs itself: R = k•G, e = H(R‖P‖m), s = k ± e·x; the other sign must be rejected
+		k := nonZero()
+		Rk := G.ScalarOp(k)
+		if eS, ok := chal(Rk, pkv, msg); ok {
+			if e, ok := toScalar(eS); ok {
+				ex := e.Mul(skv)
+				sPlus, sMinus := k.Add(ex), k.Sub(ex)
+				good, bad := sPlus, sMinus
+				if neg {
+					good, bad = sMinus, sPlus
+				}
+				sigE = e
+				if !good.IsZero() {
+					try("own-sign", pkv, Rk, good, msg, "accept")
+				}
+				if !bad.Equal(good) && !bad.IsZero() {
+					try("own-wrong-sign", pkv, Rk, bad, msg, "reject")
+				}
+				// the same signature under the negated key (= the other response sign for the key -P)
+				if !bad.Equal(good) && !good.IsZero() {
+					try("own-sign-negpk", pkv.OpInv(), Rk, good, msg, "reject")
+				}
+			}
+		}
+		// (b) forgery without the secret key: free s', e'; R = s'•G ∓ e'•P satisfies the equation for e',
+		// and the signature structure carries E = e'.  The verifier must recompute e from (R, P, m).
+		sF, eF := nonZero(), nonZero()
+		eP := pkv.ScalarOp(eF)
+		var Rf P
+		if neg {
+			Rf = G.ScalarOp(sF).Op(eP)
+		} else {
+			Rf = G.ScalarOp(sF).Op(eP.OpInv())
+		}
+		if !Rf.IsOpIdentity() {
+			sigE = eF
+			try("forged-E", pkv, Rf, sF, msg, "reject")
+			sigE = sig.E
+			try("forged-honestE", pkv, Rf, sF, msg, "reject")
+		}
+		sigE = sig.E
 	}
 }
 
@@ -249,6 +306,14 @@ func c15Bip340Challenge(R, P *k256.Point, m []byte) string {
 	h.Write(px.Bytes())
 	h.Write(m)
 	return hexNat(new(big.Int).Mod(new(big.Int).SetBytes(h.Sum(nil)), fieldOrder(fK256)))
+}
+
+func bytes32(b byte) []byte {
+	out := make([]byte, 32)
+	for i := range out {
+		out[i] = b
+	}
+	return out
 }
 
 func c15IsOddY(p *k256.Point) bool {
@@ -326,6 +391,7 @@ func c15Bip340(c *Ctx, r *Rng) {
 		c.Emit(fmt.Sprintf("bip340.sign %s %s %s", scalarHex(skv), c15Bip340Challenge(sig.R, pkv, msg), hexBytes(msg)), res)
 		honest = append(honest, item{sig, sk.PublicKey(), msg})
 
+		sigE := sig.E // the challenge carried inside the signature structure (must not be trusted)
 		try := func(tag string, Pk, R *k256.Point, s *k256.Scalar, m []byte, expect string) {
 			e := "0"
 			if !R.IsZero() && !Pk.IsZero() {
@@ -341,9 +407,10 @@ func c15Bip340(c *Ctx, r *Rng) {
 					c.Violation(fmt.Sprintf("bip340 ComputeChallenge=%s, tagged SHA-256 of (x(R)||x(P)||m) mod n=%s", lib, e))
 				}
 			}
+			E := sigE
 			out := safely(func() string {
 				p := &bip340.PublicKey{PublicKeyTrait: signatures.PublicKeyTrait[*k256.Point, *k256.Scalar]{V: Pk}}
-				return c15Verdict(verifier.Verify(&bip340.Signature{E: sig.E, R: R, S: s}, p, m))
+				return c15Verdict(verifier.Verify(&bip340.Signature{E: E, R: R, S: s}, p, m))
 			})
 			lhs := fmt.Sprintf("bip340.verify %s %s %s %s %s %s", pointStr(Pk), pointStr(R), scalarHex(s), e, hexBytes(m), tag)
 			c.Emit(lhs, out)
@@ -371,6 +438,110 @@ func c15Bip340(c *Ctx, r *Rng) {
 		}
 		for i, p2 := range []*k256.Point{pkv.Add(G), pkv.Double(), G.ScalarMul(rnd), cK256.OpIdentity()} {
 			try(fmt.Sprintf("alt-pk%d", i), p2, sig.R, sig.S, msg, "reject")
+		}
+
+		// ---- adversarially constructed signatures (no call to Signer.Sign); byte-level verification
+		wire := func(tag string, pkB, sigB, m []byte, expect string) {
+			out := safely(func() string {
+				pk2, err := bip340.NewPublicKeyFromBytes(pkB)
+				if err != nil {
+					return "undecodable"
+				}
+				sg2, err := bip340.NewSignatureFromBytes(sigB)
+				if err != nil {
+					return "undecodable"
+				}
+				return c15Verdict(verifier.Verify(sg2, pk2, m))
+			})
+			lhs := fmt.Sprintf("bip340.wire %s %s %s %s", hexBytes(pkB), hexBytes(sigB), hexBytes(m), tag)
+			c.Emit(lhs, out)
+			c.Count("bip340.wire." + tag + "." + out)
+			if (out == "accept") != (expect == "accept") {
+				c.Violation(fmt.Sprintf("bip340 wire %s: expected %s, library says %s: %s", tag, expect, out, lhs))
+			}
+		}
+		xOnly := func(p *k256.Point) []byte { return p.ToCompressed()[1:] }
+		sigBytes := func(R *k256.Point, s *k256.Scalar) []byte { return slices.Concat(xOnly(R), s.Bytes()) }
+		bigToScalar := func(hexS string) *k256.Scalar {
+			b, _ := new(big.Int).SetString(hexS, 16)
+			return scalarFromBig(sf, b)
+		}
+		nonZero := func() *k256.Scalar {
+			return scalarFromBig(sf, new(big.Int).Add(r.BigBelow(new(big.Int).Sub(n, big.NewInt(1))), big.NewInt(1)))
+		}
+		pkB := xOnly(pkv)
+		wire("honest", pkB, sigBytes(sig.R, sig.S), msg, "accept")
+		// (a) the harness signs itself following BIP-340 "Default Signing" with its own nonce
+		d := skv
+		if c15IsOddY(pkv) {
+			d = skv.Neg()
+		}
+		var kEven, kOdd *k256.Scalar // nonces whose points have even / odd y
+		for kEven == nil || kOdd == nil {
+			k := nonZero()
+			if c15IsOddY(G.ScalarMul(k)) {
+				kOdd = k
+				if kEven == nil {
+					kEven = k.Neg()
+				}
+			} else {
+				kEven = k
+				if kOdd == nil {
+					kOdd = k.Neg()
+				}
+			}
+		}
+		Re, Ro := G.ScalarMul(kEven), G.ScalarMul(kOdd)
+		eE := bigToScalar(c15Bip340Challenge(Re, pkv, msg))
+		sOwn := kEven.Add(eE.Mul(d))
+		if !sOwn.IsZero() {
+			sigE = eE
+			try("own-sign", pkv, Re, sOwn, msg, "accept")
+			wire("own-sign", pkB, sigBytes(Re, sOwn), msg, "accept")
+		}
+		// (b) nonce parity rule not applied: s = k + e·d with k•G of odd y, so s•G − e•P = R has odd y.
+		// Presented with the odd-y R, with −R (same x) and on the wire: all must be rejected.
+		eO := bigToScalar(c15Bip340Challenge(Ro, pkv, msg))
+		sOdd := kOdd.Add(eO.Mul(d))
+		if !sOdd.IsZero() && !sOdd.Equal(kOdd.Neg().Add(eO.Mul(d))) {
+			sigE = eO
+			try("own-odd-R", pkv, Ro, sOdd, msg, "reject")
+			try("own-odd-R-neg", pkv, Ro.Neg(), sOdd, msg, "reject")
+			wire("own-odd-R", pkB, sigBytes(Ro, sOdd), msg, "reject")
+		}
+		// (c) key parity rule not applied: the secret of an odd-y key used un-negated
+		if c15IsOddY(pkv) {
+			sBadKey := kEven.Add(eE.Mul(skv))
+			if !sBadKey.Equal(sOwn) && !sBadKey.IsZero() {
+				sigE = eE
+				try("own-odd-P", pkv, Re, sBadKey, msg, "reject")
+			}
+		}
+		// (d) forgery without the secret key: free s', e'; R = s'•G − e'•lift_x(P); E = e' in the structure
+		sF, eF := nonZero(), nonZero()
+		Rf := G.ScalarMul(sF).Sub(bip340.LiftX(pkv).ScalarMul(eF))
+		if !Rf.IsZero() {
+			sigE = eF
+			try("forged-E", pkv, Rf, sF, msg, "reject")
+			try("forged-E-lifted", pkv, bip340.LiftX(Rf), sF, msg, "reject")
+		}
+		sigE = sig.E
+		// (e) non-canonical / out-of-range encodings of an otherwise valid signature
+		{
+			nB := n.FillBytes(make([]byte, 32))
+			pB := c15BigCurves["k256"].p.FillBytes(make([]byte, 32))
+			ff := bytes32(0xff)
+			wire("s-eq-n", pkB, slices.Concat(xOnly(sig.R), nB), msg, "reject")
+			wire("s-max", pkB, slices.Concat(xOnly(sig.R), ff), msg, "reject")
+			wire("r-eq-p", pkB, slices.Concat(pB, sig.S.Bytes()), msg, "reject")
+			wire("r-max", pkB, slices.Concat(ff, sig.S.Bytes()), msg, "reject")
+			wire("pk-eq-p", pB, sigBytes(sig.R, sig.S), msg, "reject")
+			wire("r-zero", pkB, slices.Concat(make([]byte, 32), sig.S.Bytes()), msg, "reject")
+			wire("short", pkB, sigBytes(sig.R, sig.S)[:63], msg, "reject")
+			// s + n when it still fits 32 bytes (only for tiny s: practically never for honest signatures)
+			if sn := new(big.Int).Add(new(big.Int).SetBytes(sig.S.Bytes()), n); sn.BitLen() <= 256 {
+				wire("s-plus-n", pkB, slices.Concat(xOnly(sig.R), sn.FillBytes(make([]byte, 32))), msg, "reject")
+			}
 		}
 		// serialisation round trip keeps validity (x-only R, even-y lift)
 		rt := safely(func() string {
@@ -549,7 +720,7 @@ func c15Mina(c *Ctx, r *Rng) {
 			lhs := fmt.Sprintf("schnorr.verify pallas 0.0.poseidon %s %s %s %s %s mina-%s", pointStr(Pk), pointStr(R), scalarHex(s), e, mh, tag)
 			c.Emit(lhs, out)
 			c.Count("mina.verify." + tag + "." + out)
-			if out != expect {
+			if expect != "" && out != expect {
 				c.Violation(fmt.Sprintf("mina %s: expected %s, library says %s: %s", tag, expect, out, lhs))
 			}
 		}
@@ -568,6 +739,96 @@ func c15Mina(c *Ctx, r *Rng) {
 		try("alt-m1", pkv, sig.R, sig.S, mkMsg(text, true), hexBytes(append([]byte(text), 1)), "reject")
 		for i, p2 := range []*pasta.PallasPoint{pkv.Add(G), pkv.Neg(), pkv.Double(), G.ScalarMul(rnd), cPallas.OpIdentity()} {
 			try(fmt.Sprintf("alt-pk%d", i), p2, sig.R, sig.S, msg, mhex, "reject")
+		}
+
+		// ---- adversarially constructed signatures (no call to Signer.Sign); byte-level verification
+		le32 := func(v *big.Int) []byte {
+			b := v.FillBytes(make([]byte, 32))
+			slices.Reverse(b)
+			return b
+		}
+		xBig := func(p *pasta.PallasPoint) *big.Int {
+			x, _ := p.AffineX()
+			return new(big.Int).SetBytes(x.Bytes())
+		}
+		sBig := func(s *pasta.PallasScalar) *big.Int { return new(big.Int).SetBytes(s.Bytes()) }
+		wire := func(tag string, rx, sv *big.Int, expect string) {
+			b := slices.Concat(le32(rx), le32(sv))
+			e := "0"
+			out := safely(func() string {
+				sg2, err := mina.DeserializeSignature(b)
+				if err != nil {
+					return "undecodable"
+				}
+				if x, ok := chal(sg2.R, pkv, msg); ok {
+					e = x
+				}
+				return c15Verdict(verifier.Verify(sg2, sk.PublicKey(), msg))
+			})
+			lhs := fmt.Sprintf("mina.wire %s %s %s %s", pointStr(pkv), hexBytes(b), e, tag)
+			c.Emit(lhs, out)
+			c.Count("mina.wire." + tag + "." + out)
+			if (out == "accept") != (expect == "accept") {
+				c.Violation(fmt.Sprintf("mina wire %s: expected %s, library says %s: %s", tag, expect, out, lhs))
+			}
+		}
+		toScalar := func(hexS string) *pasta.PallasScalar {
+			b, _ := new(big.Int).SetString(hexS, 16)
+			return scalarFromBig(sf, b)
+		}
+		nonZero := func() *pasta.PallasScalar {
+			return scalarFromBig(sf, new(big.Int).Add(r.BigBelow(new(big.Int).Sub(n, big.NewInt(1))), big.NewInt(1)))
+		}
+		isOdd := func(p *pasta.PallasPoint) bool {
+			y, err := p.AffineY()
+			return err == nil && y.IsOdd()
+		}
+		pBase := c15hexBig("40000000000000000000000000000000224698fc094cf91b992d30ed00000001")
+		wire("honest", xBig(sig.R), sBig(sig.S), "accept")
+		// non-canonical encodings of the valid signature: both fit 32 bytes on Pallas (p, n < 2^255)
+		wire("s-plus-n", xBig(sig.R), new(big.Int).Add(sBig(sig.S), n), "reject")
+		wire("rx-plus-p", new(big.Int).Add(xBig(sig.R), pBase), sBig(sig.S), "reject")
+		wire("s-eq-n", xBig(sig.R), n, "reject")
+		// (a) the harness signs itself: R = k•G with even y, s = k + e·x
+		kEven := nonZero()
+		if isOdd(G.ScalarMul(kEven)) {
+			kEven = kEven.Neg()
+		}
+		kOdd := kEven.Neg()
+		Re, Ro := G.ScalarMul(kEven), G.ScalarMul(kOdd)
+		if eS, ok := chal(Re, pkv, msg); ok {
+			e := toScalar(eS) // the challenge depends on x(R) only: the same for Re and Ro
+			sOwn := kEven.Add(e.Mul(skv))
+			if !sOwn.IsZero() {
+				try("own-sign", pkv, Re, sOwn, msg, mhex, "accept")
+				wire("own-sign", xBig(Re), sBig(sOwn), "accept")
+				try("own-wrong-sign", pkv, Re, kEven.Sub(e.Mul(skv)), msg, mhex, "reject")
+			}
+			// (b) nonce parity rule not applied: s = k + e·x with k•G of odd y.  On the wire (x(R), s) decodes to
+			// the even-y point and must be rejected, as every Mina verifier does.  In memory the library compares
+			// the full point; the model mirrors that (no expectation here, see the report).
+			sOdd := kOdd.Add(e.Mul(skv))
+			if !sOdd.IsZero() && !sOdd.Equal(sOwn) {
+				wire("own-odd-R", xBig(Ro), sBig(sOdd), "reject")
+				try("own-odd-R", pkv, Ro, sOdd, msg, mhex, "")
+				try("own-odd-R-neg", pkv, Re, sOdd, msg, mhex, "reject")
+			}
+		}
+		// (c) forgery without the secret key: free s', e'; R = s'•G − e'•P; E = e' in the structure
+		sF, eF := nonZero(), nonZero()
+		Rf := G.ScalarMul(sF).Sub(pkv.ScalarMul(eF))
+		if !Rf.IsZero() {
+			out := safely(func() string {
+				return c15Verdict(verifier.Verify(&mina.Signature{E: eF, R: Rf, S: sF}, sk.PublicKey(), msg))
+			})
+			if e, ok := chal(Rf, pkv, msg); ok {
+				lhs := fmt.Sprintf("schnorr.verify pallas 0.0.poseidon %s %s %s %s %s mina-forged-E", pointStr(pkv), pointStr(Rf), scalarHex(sF), e, mhex)
+				c.Emit(lhs, out)
+				c.Count("mina.verify.forged-E." + out)
+				if out != "reject" {
+					c.Violation(fmt.Sprintf("mina forged-E: expected reject, library says %s: %s", out, lhs))
+				}
+			}
 		}
 		// serialisation round trip (x-only R, even-y reconstruction)
 		rt := safely(func() string {
